@@ -215,4 +215,18 @@ CHECKS["C18"] = {
           "axioms, N-LINALG-INV, real arithmetic for floating point, cont_moments_cv / counter_clockwise / vol_revolve stubs at their call sites.",
   "technique": "contract-based deductive verification: AST-generated VCs with loop invariants over uninterpreted per-event statistics, "
                "nonlinear real arithmetic lemmas and structural data-flow signatures, discharged by z3"}
+CHECKS["C05"] = {
+  "text": "Decided clauses: scale_emodulus / scale_area_um / scale_volume multiply every entry by the documented factor "
+          "((Q_out/Q_in)(eta_out/eta_in)(w_in/w_out)^3, (w_out/w_in)^2, (w_out/w_in)^3) and respect the in-place / copy frame (proof, "
+          "elementwise over symbolic arrays); the pixelation corrections are evaluated at x(0.34/px)^2 for an area and x(0.34/px)^3 for a "
+          "volume (proof, np.exp uninterpreted); frame analysis of get_emodulus over the AST: no parameter is rebound except to a copy of "
+          "itself, every in-place operation targets an array the function created, and no function of the emodulus package is memoised "
+          "or keeps module-level state (so a value cannot depend on earlier calls).",
+  "note": "The piecewise-linear interpolation (scipy griddata / Qhull), NaN outside the LUT's support, the viscosity models and LUT "
+          "parsing are not within reach of a contract: not decided. They are exercised by the bounded end-to-end layer on every run "
+          "(each event alone with its own scalar temperature equals its value within a batch with per-event temperatures; repeatability; "
+          "doubling viscosity / flow rate doubles the result; joint geometric rescaling invariance; caller arrays untouched; a rewritten "
+          "user LUT file is re-read), labelled bounded. The frame analysis is syntactic (flow-insensitive ownership of locals).",
+  "technique": "contract-based deductive verification: AST-generated VCs for the scaling and pixelation functions discharged by z3; "
+               "AST frame (ownership / statelessness) analysis for get_emodulus; bounded native replay for the interpolation"}
 NOT_APPLICABLE = {}
